@@ -752,11 +752,16 @@ class ServerOptions(Options):
 
             result_handler = get(section, 'result_handler',
                                        'supervisor.dispatchers:default_handler')
+            result_handler_spec = result_handler
             try:
                 result_handler = self.import_spec(result_handler)
             except (AttributeError, ImportError):
                 raise ValueError('%s cannot be resolved within [%s]' % (
                     result_handler, section))
+            if not callable(result_handler):
+                # e.g. a module name without the ':function' part
+                raise ValueError('%s is not callable within [%s]' % (
+                    result_handler_spec, section))
 
             pool_event_names = [x.upper() for x in
                                 list_of_strings(get(section, 'events', ''))]
